@@ -293,7 +293,7 @@ def battery():
     return out
 
 
-def boundary_variants(opt):
+def boundary_variants(opt, with_kind=False):
     """validator-accepted configurations with ONE parameter at (or near) the edge of what the config model accepts, or
     with a two-element range given in reversed order.  The real config model is the validity oracle."""
     base = dict(base_configs()[opt])
@@ -301,13 +301,13 @@ def boundary_variants(opt):
     out = []
     seen = set()
 
-    def add(k, v):
+    def add(k, v, kind="edge"):
         trial = dict(base)
         trial[k] = v
         key = json.dumps([k, v], sort_keys=True, default=str)
         if key not in seen and trial != base and config_valid(opt, trial):
             seen.add(key)
-            out.append((k, trial))
+            out.append((k, trial) if not with_kind else (k, trial, kind))
             return True
         return False
 
@@ -324,6 +324,8 @@ def boundary_variants(opt):
             for c in (v * 4, v * 3, v * 2, v + 5, v + 2):    # a large accepted value
                 if add(k, c):
                     break
+            add(k, v + 1, "interior")
+            add(k, v - 1, "interior")
         elif isinstance(v, float):
             for c in (0.0, 1e-9, v / 10.0, v / 2.0):
                 if add(k, c):
@@ -331,6 +333,8 @@ def boundary_variants(opt):
             for c in (v * 10.0, v * 2.0, 1.0, 0.999):
                 if add(k, c):
                     break
+            for c in (v * 12.5, v * 3.0, v * 0.3):           # values inside the accepted range, away from the documented one
+                add(k, c, "interior")
         elif isinstance(v, list) and len(v) == 2 and all(isinstance(e, (int, float)) for e in v):
             for c in ([v[1], v[0]], [v[1], v[1] / 2.0], [v[1] * 2.0, v[1]], [abs(v[0]) + abs(v[1]), abs(v[1]) / 2.0]):
                 if c[0] > c[1] and add(k, c):                # a range given in descending order
@@ -356,7 +360,9 @@ def boundary_battery():
     ]
     for rep in range(4):          # rep 0: used by every campaign check; reps 1-3 (other seeds, longer): C10 and C17 only
         for a, opt in enumerate(opt_names()):
-            for b, (k, cfg) in enumerate(boundary_variants(opt)):
+            for b, (k, cfg, vkind) in enumerate(boundary_variants(opt, with_kind=True)):
+                if rep > 0 and vkind == "interior":
+                    continue
                 for t, task in enumerate(tasks_):
                     cfg2 = dict(cfg, fitness_error=None, max_cycles=6 if rep == 0 else 10)
                     if not config_valid(opt, cfg2):
